@@ -212,6 +212,22 @@ class DictInterp:
             if all(t in ("torch.Tensor", "Tensor") for t in types):
                 return isinstance(v, Tok) and v.is_tensor
             raise Unsupported("isinstance(.., %s)" % types)
+        if fn in ("all", "any") and len(c.args) == 1 and isinstance(c.args[0], (ast.GeneratorExp, ast.ListComp)) and not c.keywords:
+            # all(<test> for k in d): the element is evaluated as a truth value per item
+            g_ = c.args[0]
+            vals_ = []
+
+            def nest_t(k):
+                if k == len(g_.generators):
+                    vals_.append(self.truth(g_.elt))
+                    return
+                gen_ = g_.generators[k]
+                for item in self.iterate(gen_.iter):
+                    self.bind(gen_.target, item)
+                    if all(self.truth(c_) for c_ in gen_.ifs):
+                        nest_t(k + 1)
+            nest_t(0)
+            return all(vals_) if fn == "all" else any(vals_)
         args = [self.ev(a) for a in c.args if not isinstance(a, ast.Starred)]
         if fn == "range" and args and all(isinstance(a, int) for a in args):
             return list(range(*args))
